@@ -246,9 +246,13 @@ func c10Cases(tier string) []c10Case {
 					}
 					p := 0
 					if conc > 1 {
+						// quick: P<=2 for blocks up to 3, P<=1 for blocks of 4;
+						// thorough: P<=3 for blocks up to 3, P<=2 for blocks of 4
 						p = maxP
 						if tier == "thorough" && n <= 3 {
 							p = 3
+						} else if tier != "thorough" && n == 4 {
+							p = 1
 						}
 					}
 					out = append(out, c10Case{N: n, Pos: pos, Kind: k, Conc: conc, P: p})
@@ -494,7 +498,7 @@ func TestVerifC10(t *testing.T) {
 		}
 	}
 	deadline := started.Add(budget - 3*time.Second)
-	r.Rule("a case = (block length 1..4) x (position of the scripted transaction) x (failure kind: non-retryable at attempt 0 or 1, retryable once/twice then ok with both retryable codes, retry budget exhausted with both codes, none) x (sequential | concurrent level 2 | level 3); concurrent cases are executed through the real transition.doExecute under every interleaving with at most P preemptions (P=2; thorough: 3 for blocks up to 3); distinct_nontrivial counts cases in which a handler really failed")
+	r.Rule("a case = (block length 1..4) x (position of the scripted transaction) x (failure kind: non-retryable at attempt 0 or 1, retryable once/twice then ok with both retryable codes, retry budget exhausted with both codes, none) x (sequential | concurrent level 2 | level 3); concurrent cases are executed through the real transition.doExecute under every interleaving with at most P preemptions (quick: P=2 for blocks up to 3, P=1 for blocks of 4; thorough: P=3 for blocks up to 3, P=2 for blocks of 4); distinct_nontrivial counts cases in which a handler really failed")
 	r.Assume("scripted transaction type (own Handler) instead of contract execution; every transaction write-locks one of two accounts (0,2 and 1,3 share) so workers really wait for each other",
 		"only worldvirtualstate.go and transition_pe.go run on the vsync shim; release operations are not preemptible (data-race-free code)",
 		"the statement allows a block with a retryable failure to fail as a whole; only 'success with a failed/missing transaction', panics, deadlocks and missing callbacks are violations")
@@ -636,9 +640,10 @@ func TestVerifC10(t *testing.T) {
 	r.Set("executions", total.Executions)
 	r.Set("free_running_executions", free)
 	if skipped == 0 {
-		r.Set("preemption_bound_completed", 2)
 		if r.Thorough() {
-			r.Set("preemption_bound_completed_blocks_up_to_3", 3)
+			r.Set("preemption_bound_completed", map[string]int{"blocks of 1-3": 3, "blocks of 4": 2})
+		} else {
+			r.Set("preemption_bound_completed", map[string]int{"blocks of 1-3": 2, "blocks of 4": 1})
 		}
 	}
 	r.Set("executions_with_a_blocked_thread", total.BlockedExecutions)
